@@ -50,7 +50,7 @@ def shard(lines_per_episode, nshards):
         sh[i % nshards].append(e)
     return [s for s in sh if s]
 
-def run_all(bdir, wd, shards, render, timeout=900, nproc=NCPU):
+def run_all(bdir, wd, shards, render, timeout=900, nproc=NCPU, allow_nosession=False):
     """shards: list of lists of episodes; render(episodes, start_id)->lines. returns list of run dicts"""
     jobs = []
     start = 0
@@ -66,6 +66,13 @@ def run_all(bdir, wd, shards, render, timeout=900, nproc=NCPU):
         res = [f.result() for f in futs]
     for r, (_, _, eps) in zip(res, jobs):
         r["episodes"] = eps
+        # a scenario whose sessions could not even be created tests nothing: treat as an infrastructure error
+        try:
+            bad = sum(1 for l in open(r["trace"]) if '"hs":"NOSESSION"' in l)
+        except OSError:
+            bad = 0
+        if bad and not allow_nosession:
+            raise SystemExit("INFRA: %d session creations failed in %s" % (bad, r["script"]))
     return res
 
 def validate_all(runs, module="MxSession_Trace.tla", cfg="MxSession_Trace.cfg", nproc=NCPU, timeout=1500):
